@@ -98,6 +98,14 @@ class Problem:
             return t.reshape(-1)[arg[0]:arg[1]].clone()
         return t[arg[0]:arg[1]].clone()  # order-0 shapes are not generated for dim-0 sharded flavours
 
+    def pedits(self, step: dict) -> dict[int, torch.Tensor]:
+        """Parameters that are overwritten from outside the optimizer before this step (a model checkpoint loaded after the optimizer was built,
+        weight averaging, clipping): param index -> new full tensor."""
+        pe = step.get("pedit")
+        if not pe:
+            return {}
+        return {i: gen.make_tensor(self.shapes[i], "gauss", pe["seed"] * 7 + i, self.cfg.get("gscale", 1.0), self.dts[i]) for i in pe["params"] if i < len(self.shapes)}
+
     def grads(self, step: dict) -> list[torch.Tensor | None]:
         gs = gen.step_grads(self.shapes, step, torch.float64)
         return [None if g is None else g.to(self.dts[i]) for i, g in enumerate(gs)]
@@ -151,6 +159,24 @@ class Problem:
         for (i, _), (_, rk) in zip(blocks, assign):
             own[rk].add(i)
         return [sorted(o) for o in own]
+
+    def group_rank(self, r: int) -> int:
+        """Rank of global rank r inside its communication group (ranks of a process group are numbered in ascending global order)."""
+        G = self.group_size
+        if self.flavour == "ddp":
+            return r % G
+        perm = self.case.get("mesh_perm") or list(range(self.R * self.S))
+        col = next(sorted(perm[j::self.S]) for j in range(self.S) if r in perm[j::self.S])
+        return col.index(r) % G
+
+    def group_id(self, r: int) -> int:
+        """Which communication group (inside its replicate column) global rank r belongs to."""
+        G = self.group_size
+        if self.flavour == "ddp":
+            return r // G
+        perm = self.case.get("mesh_perm") or list(range(self.R * self.S))
+        col = next(sorted(perm[j::self.S]) for j in range(self.S) if r in perm[j::self.S])
+        return col.index(r) // G
 
     def nonascending_replicate_groups(self) -> bool:
         perm = self.case.get("mesh_perm")
@@ -240,13 +266,32 @@ def serial_snapshots(pb: Problem, s: int) -> tuple[list[list[torch.Tensor]] | No
             opt = gen.build_optimizer(params, pb.cfg)
             for st in pb.steps:
                 grads = pb.grads(st)
+                ed = pb.pedits(st)
                 for p, (i, spec) in zip(params, units):
                     p.grad = None if grads[i] is None else pb.unit_tensor(grads[i], (i, spec))
+                    if i in ed:
+                        with torch.no_grad():
+                            p.copy_(pb.unit_tensor(ed[i], (i, spec)))
                 opt.step()
                 snaps.append([p.detach().clone() for p in params])
     except Exception as e:  # noqa: BLE001
         return None, f"{type(e).__name__}: {str(e)[:200]}"
     return snaps, None
+
+
+def _same(a: torch.Tensor, b: torch.Tensor) -> bool:
+    """Bitwise equality in which NaNs at the same positions count as equal whatever their sign / payload bits (a diverged run - e.g. 0/0 with a
+    grafting epsilon that underflows in float16 - is NaN on both sides; which NaN a kernel produces is not part of any contract)."""
+    if a.shape != b.shape or a.dtype != b.dtype:
+        return False
+    if a.is_floating_point() and a.numel():
+        na, nb = torch.isnan(a), torch.isnan(b)
+        if bool(na.any()) or bool(nb.any()):
+            if not bool(torch.equal(na, nb)):
+                return False
+            z = torch.zeros((), dtype=a.dtype)
+            return rm.bitwise_equal(torch.where(na, z, a), torch.where(nb, z, b))
+    return rm.bitwise_equal(a, b)
 
 
 def _at_least_as_precise(cd: torch.dtype, pd: torch.dtype) -> bool:
@@ -321,6 +366,15 @@ def make_rank_fn(pb: Problem, collect_layout: bool = False, checkpoint_at: int |
             dc = None
         # local parameters
         local0 = [pb.local_of(pb.full[i], i, s) for i in range(len(pb.shapes))]
+        llayout = pb.case.get("llayout")
+        if llayout and fl in ("fully_shard", "hybrid_shard"):
+            # same local values and shape in a non-row-major memory layout (a transposed / channels_last local shard); only where the optimizer's
+            # param.view(merged dims) is legal for such a tensor, i.e. where merging leaves the local shape unchanged
+            for i, t in enumerate(local0):
+                if i < len(llayout) and llayout[i] and t.dim() >= 2 and t.numel() > 0 and (
+                        not pb.eff["merge"] or tuple(rm.merge_dims(tuple(t.shape), pb.eff["mpd"], True)) == tuple(t.shape)):
+                    rev = list(range(t.dim()))[::-1]
+                    local0[i] = t.permute(*rev).contiguous().permute(*rev)
         if fl in ("fully_shard", "hybrid_shard"):
             placements = [Shard(0)] if fl == "fully_shard" else [Replicate(), Shard(0)]
 
@@ -365,6 +419,11 @@ def make_rank_fn(pb: Problem, collect_layout: bool = False, checkpoint_at: int |
 
         def set_grads(ps: list, st: dict) -> None:
             grads = pb.grads(st)
+            for i, full_new in pb.pedits(st).items():
+                d = ps[i].detach()
+                tgt = d.to_local() if hasattr(d, "to_local") else d
+                with torch.no_grad():
+                    tgt.copy_(pb.local_of(full_new, i, s))
             for i, p in enumerate(ps):
                 if grads[i] is None:
                     p.grad = None
@@ -494,7 +553,7 @@ def run_case(case: dict, prefix: str, collect_layout: bool = False, checkpoint_a
             want = local_from_units(pb, s, snaps[t])
             got = res["snaps"][t]
             for i, (a, b) in enumerate(zip(got, want)):
-                if a.shape != b.shape or not rm.bitwise_equal(a, b):
+                if a.shape != b.shape or not _same(a, b):
                     dev = float((a.double() - b.double()).abs().max()) if a.shape == b.shape and a.numel() else float("nan")
                     out.fail(f"{prefix}.a.equals_serial", "a rank's parameters differ from the single-process optimizer" + (" (order-0 block, float32 search direction rounded by the communication dtype)" if pb.case.get("probe") == "F10" else ""),
                              f"rank {r} (shard {s}) step {t + 1} param {i} shape {list(a.shape)} vs {list(b.shape)} max abs diff {dev:.3e}")
@@ -509,7 +568,7 @@ def run_case(case: dict, prefix: str, collect_layout: bool = False, checkpoint_a
         r0, base = lst[0]
         for r, res in lst[1:]:
             for t in range(len(pb.steps)):
-                if any(not rm.bitwise_equal(a, b) for a, b in zip(res["snaps"][t], base["snaps"][t])):
+                if any(not _same(a, b) for a, b in zip(res["snaps"][t], base["snaps"][t])):
                     out.fail(f"{prefix}.b.replicas_identical", "replicas hold different parameters", f"ranks {r0} and {r} (shard {s}) step {t + 1}")
                     break
             else:
@@ -528,6 +587,18 @@ def world_classes(pb: Problem, tr: dict) -> list[str]:
             cl.append("reduced_precision")
         if len(set(pb.dts)) > 1:
             cl.append("mixed_param_dtypes")
+        if any(st.get("pedit") for st in pb.steps):
+            cl.append("parameters_edited_outside_the_optimizer")
+            if any(st.get("pedit") and any(not st["mask"][i] for i in st["pedit"]["params"] if i < len(st["mask"])) for st in pb.steps):
+                cl.append("edited_parameter_without_gradient")
+        ll = pb.case.get("llayout")
+        if ll and pb.flavour in ("fully_shard", "hybrid_shard"):
+            for i, shp in enumerate(pb.shapes):
+                a, b = pb.rows(i, 0)
+                loc = (b - a,) + tuple(shp[1:])
+                if i < len(ll) and ll[i] and len(loc) >= 2 and math.prod(loc) > 0 and (not pb.eff["merge"] or tuple(rm.merge_dims(loc, pb.eff["mpd"], True)) == loc):
+                    cl.append("non_row_major_local_shard")
+                    break
         if pb.case.get("mesh_perm") and list(pb.case["mesh_perm"]) != sorted(pb.case["mesh_perm"]):
             cl.append("permuted_mesh")
         if 1 < pb.group_size < pb.R:
@@ -544,3 +615,20 @@ def world_classes(pb: Problem, tr: dict) -> list[str]:
 
 
 _ = (traceback, Failure)
+
+
+def st_param_edits(draw: Any, steps: list, nparams: int) -> None:
+    """With probability 1/4 mark one or two later steps of a drawn history with an external overwrite of some parameters; an edited parameter often
+    has no gradient in that step (it must then keep the edited value)."""
+    from hypothesis import strategies as st
+
+    if len(steps) < 2 or not draw(st.sampled_from([False, False, False, True])):
+        return
+    for t in sorted(draw(st.sets(st.integers(1, len(steps) - 1), min_size=1, max_size=2))):
+        idx = sorted(draw(st.sets(st.integers(0, nparams - 1), min_size=1, max_size=min(2, nparams))))
+        steps[t] = dict(steps[t], pedit={"params": idx, "seed": draw(st.integers(0, 10**4))})
+        if draw(st.booleans()) and nparams >= 2:
+            m = list(steps[t]["mask"])
+            m[idx[0]] = False
+            if any(m):
+                steps[t]["mask"] = m
